@@ -12,6 +12,30 @@ from harness import dfgen as G  # noqa: E402
 from harness import matcoq as M  # noqa: E402
 
 PROP = "C04"
+# Clause-by-clause coverage of the property text: clause -> oracle key(s) that judge it <- generator kind(s) that exercise it.
+CLAUSES = [
+    "converting the dataset's own frame reproduces its TensorFrame -> row-local:*, names-at-return, num-rows, y-rows, "
+    "after-other-datasets:* <- call kind 'all', the implicit recheck after other datasets, Coq session_ok / own_frame_ok",
+    "any selection / repetition / reordering of rows gives exactly the corresponding rows -> row-local:<stype>, "
+    "differs-from-tensor-frame-index, y-differs-from-tensor-frame-index, tensor-frame-index-raises, convert-raises:* "
+    "<- call kinds single/repeat/reorder/multiset/slice/missing/unlabeled x frame construction how=iloc/take/concat/"
+    "reset_index/mask x permuted and extra columns x selection alias tensor_frame[idx] / ds[idx] / index_select",
+    "however often the converter is called -> names-at-return, names-later, dataset-frame-changed, row-local:* on calls "
+    "2..4 <- 1-4 calls per dataset (materialization is call 0), entry points converter(df) / converter.__call__(df), "
+    "device None / 'cpu' / torch.device positional and keyword",
+    "uses the fitted statistics only -> row-local:categorical, unseen:*, after-other-datasets:*, other:* <- unseen-value "
+    "injections, other datasets over the same column names (before / mid session)",
+    "unseen category -> missing (categorical), incl. the target -> unseen:categorical, unseen:target, "
+    "convert-raises:*:unseen, convert-raises:*:unseen-target <- injection kind 'unseen' in features and in the target",
+    "unseen multicategorical token left out, no aliasing -> unseen:multicategorical <- injection kinds only_unseen / "
+    "mixed / two_unseen",
+    "a frame without the target column yields no y (and with it: the rows of y, also when all are unlabeled) -> "
+    "y-without-target, y-rows, dataset-y <- drop_target calls, call kind 'unlabeled', target_missing frames",
+    "supplying previously computed statistics = recomputing them -> supplied-raises:*, supplied-frame, supplied-stats, "
+    "supplied-stats-source-changed <- supplied cases, col_stats passed by keyword / positionally, with device forms; "
+    "Coq materialize_ok",
+    "(malformed, outside the quantifier) a frame lacking a feature column raises -> malformed-accepted <- drop_feature",
+]
 HEADER = ("From PF Require Import Gen.Tables Lib.ListX Model.Ragged Model.Mapper Model.MapperSpec Model.Converter "
           "Model.ConverterState.\nOpen Scope Z_scope.")
 MODEL_TARGETS = ["Model/ConverterState.vo"]
@@ -124,6 +148,8 @@ def gen_case(rng, tier):
                        ["text_embedded", "categorical", "multicategorical"]])
     desc = G.gen_frame(rng, stypes=st, target_missing=0.7)
     case = {"frame": desc, "calls": gen_calls(rng, desc, rng.randint(1, 4)), "supplied": rng.chance(0.5)}
+    case["materialize_args"] = {"device": rng.pick(["default", "default", "pos_none", "kw_str", "kw_device"]),
+                                "col_stats": rng.pick(["keyword", "positional"])}
     if rng.chance(0.35):
         # other datasets alive in the same process over the SAME column names and stypes but different data, hence
         # different fitted statistics / separators / formats; materialized before or between the first dataset's calls
@@ -140,6 +166,12 @@ def gen_calls(rng, desc, k, malformed=True):
     for _ in range(k):
         kind, rows = gen_rows(rng, desc["n"], desc)
         call = {"kind": kind, "rows": rows, "inject": gen_injections(rng, desc, rows)}
+        # how the frame handed to the converter is produced and how the converter is invoked
+        call["how"] = rng.pick(["iloc", "iloc", "take", "concat", "reset_index", "mask"])
+        call["columns"] = rng.pick(["same", "same", "permuted", "extra", "permuted+extra"])
+        call["device"] = rng.pick(["default", "default", "kw_none", "pos_str", "kw_device"])
+        call["entry"] = rng.pick(["call", "call", "dunder"])
+        call["sel_alias"] = rng.pick(["tensor_frame[idx]", "tensor_frame[idx]", "ds[idx]", "index_select"])
         call["drop_target"] = bool(desc["target"] and kind != "unlabeled" and rng.chance(0.3)
                                    and not any(i["col"] == desc["target"] for i in call["inject"]))
         if malformed and rng.chance(0.04):
@@ -199,8 +231,22 @@ def selected_cells(case, call, col):
 
 def build_call_df(case, call, df):
     import pandas as pd  # noqa: F401
+    import numpy as np
     desc = case["frame"]
-    df2 = df.iloc[call["rows"]].copy()
+    rows = list(call["rows"])
+    how = call.get("how", "iloc")
+    if how == "take":
+        df2 = df.take(rows).copy()
+    elif how == "concat":
+        df2 = pd.concat([df.iloc[[r]] for r in rows])
+    elif how == "reset_index":
+        df2 = df.iloc[rows].reset_index(drop=True)
+    elif how == "mask" and rows == sorted(set(rows)):
+        m = np.zeros(len(df), dtype=bool)
+        m[rows] = True
+        df2 = df[m].copy()
+    else:
+        df2 = df.iloc[rows].copy()
     by = {c["name"]: c for c in desc["cols"]}
     for name in {i["col"] for i in call["inject"]}:
         col = by[name]
@@ -211,7 +257,36 @@ def build_call_df(case, call, df):
         df2 = df2.drop(columns=[desc["target"]])
     if call.get("drop_feature"):
         df2 = df2.drop(columns=[call["drop_feature"]])
+    cm = call.get("columns", "same")
+    if "extra" in cm:
+        df2["__unrelated__"] = list(range(len(df2)))           # a column the dataset does not know
+    if "permuted" in cm:
+        df2 = df2[list(reversed(list(df2.columns)))]
     return df2
+
+
+def invoke(ds, df2, call):
+    import torch
+    conv = ds.convert_to_tensor_frame
+    f = conv.__call__ if call.get("entry") == "dunder" else conv
+    dev = call.get("device", "default")
+    if dev == "kw_none":
+        return f(df2, device=None)
+    if dev == "pos_str":
+        return f(df2, "cpu")
+    if dev == "kw_device":
+        return f(df2, device=torch.device("cpu"))
+    return f(df2)
+
+
+def select_tf(ds, call):
+    rows = list(call["rows"])
+    a = call.get("sel_alias", "tensor_frame[idx]")
+    if a == "ds[idx]":
+        return ds[rows].tensor_frame
+    if a == "index_select":
+        return ds.index_select(rows).tensor_frame
+    return ds.tensor_frame[rows]
 
 
 def plain(call):
@@ -240,13 +315,13 @@ def run_calls(case, ds, calls, after_first=None):
         except Exception:
             parsed = None
         try:
-            tf = ds.convert_to_tensor_frame(df2)
+            tf = invoke(ds, df2, call)
             frames.append(tf)
             rec = {"ok": True, "tf": G.read_tf(tf), "parsed": parsed}
             if plain(call):
                 # the property's observation point: dataset.tensor_frame[idx]
                 try:
-                    rec["sel"] = G.read_tf(ds.tensor_frame[list(call["rows"])])
+                    rec["sel"] = G.read_tf(select_tf(ds, call))
                 except Exception as ex:
                     rec["sel"] = {"exc": C.exc_name(ex), "msg": str(ex)[:200]}
             recs.append(rec)
@@ -271,9 +346,19 @@ def materialize_other(o):
 
 def run(case):
     desc = case["frame"]
+    import torch
+    ma = case.get("materialize_args") or {}
+    dev = ma.get("device", "default")
     try:
         ds, _ = G.build_dataset(desc)
-        ds.materialize()
+        if dev == "pos_none":
+            ds.materialize(None)
+        elif dev == "kw_str":
+            ds.materialize(device="cpu")
+        elif dev == "kw_device":
+            ds.materialize(device=torch.device("cpu"))
+        else:
+            ds.materialize()
     except Exception as ex:
         return {"ok": False, "stage": "materialize", "exc": C.exc_name(ex), "msg": str(ex)[:300], "tb": C.fmt_exc()}
     out = {"ok": True, "base": G.read_tf(ds.tensor_frame), "stats": G.read_stats(ds.col_stats), "calls": [],
@@ -318,7 +403,11 @@ def run(case):
     if case["supplied"]:
         try:
             ds2, _ = G.build_dataset(desc)
-            ds2.materialize(col_stats=copy.deepcopy(ds.col_stats))       # a copy: ds2 updates the dict it is given
+            st2 = copy.deepcopy(ds.col_stats)                             # a copy: ds2 updates the dict it is given
+            if ma.get("col_stats") == "positional":
+                ds2.materialize(torch.device("cpu") if dev == "kw_device" else None, None, st2)
+            else:
+                ds2.materialize(col_stats=st2)
             out["supplied"] = {"ok": True, "tf": G.read_tf(ds2.tensor_frame), "stats": G.read_stats(ds2.col_stats),
                                "stats_first_after": G.read_stats(ds.col_stats)}
         except Exception as ex:
@@ -570,6 +659,12 @@ def stats(cases, obss):
         if sts & {"text_embedded", "image_embedded"}:
             d["frames_with_embedding_merge"] += 1
         d["supplied"] += int(c["supplied"])
+        ma = c.get("materialize_args") or {}
+        d.setdefault("materialize_device", {})
+        d["materialize_device"][ma.get("device")] = d["materialize_device"].get(ma.get("device"), 0) + 1
+        if c["supplied"]:
+            d.setdefault("supplied_col_stats_form", {})
+            d["supplied_col_stats_form"][ma.get("col_stats")] = d["supplied_col_stats_form"].get(ma.get("col_stats"), 0) + 1
         d["cases_with_other_datasets"] = d.get("cases_with_other_datasets", 0) + int(bool(c.get("others")))
         d["other_datasets_mid_session"] = d.get("other_datasets_mid_session", 0) + \
             sum(1 for x in c.get("others") or [] if x["when"] == "mid")
@@ -583,6 +678,9 @@ def stats(cases, obss):
         for call, rec in zip(c["calls"], o["calls"]):
             d["calls"] += 1
             d["call_kinds"][call["kind"]] = d["call_kinds"].get(call["kind"], 0) + 1
+            for k in ("how", "columns", "device", "entry", "sel_alias"):
+                d.setdefault("call_" + k, {})
+                d["call_" + k][call.get(k)] = d["call_" + k].get(call.get(k), 0) + 1
             d["calls_with_unseen"] += int(bool(call["inject"]))
             tinj = [i for i in call["inject"] if i["col"] == desc["target"]]
             if tinj:
@@ -620,6 +718,16 @@ def sanity(cases, obss):
     for k in ("cases_with_other_datasets", "other_datasets_mid_session", "targets_with_missing_cells"):
         if d.get(k, 0) == 0:
             probs.append(f"{k} = 0")
+    need = {"call_how": ["iloc", "take", "concat", "reset_index", "mask"],
+            "call_columns": ["same", "permuted", "extra", "permuted+extra"],
+            "call_device": ["default", "kw_none", "pos_str", "kw_device"], "call_entry": ["call", "dunder"],
+            "call_sel_alias": ["tensor_frame[idx]", "ds[idx]", "index_select"],
+            "materialize_device": ["default", "pos_none", "kw_str", "kw_device"],
+            "supplied_col_stats_form": ["keyword", "positional"]}
+    for grp, ks in need.items():
+        for k in ks:
+            if (d.get(grp) or {}).get(k, 0) == 0:
+                probs.append(f"{grp} = {k} never drawn")
     for k, v in (d.get("target_unseen_calls") or {"never": 0}).items():
         if v == 0:
             probs.append(f"unseen label in the target column: {k} never drawn")
